@@ -22,6 +22,7 @@ var c05Flags = [][]string{
 	{"-v", "CHF"},
 	{"-v", "CHF", "--days", "--close=false"},
 	{"-a", "--last", "1", "--weeks"},
+	{"-m", "1:1"},
 }
 
 func c05Pool() []jr.Dir {
@@ -320,6 +321,10 @@ func c05FixedJournals(e *core.Env, drv *core.Driver) {
 		// invalid: asserted before it is funded on the following day
 		{jr.O(d1, food), jr.O(d1, bank), jr.A(d1, jr.Bal{Acc: bank, Qty: "5", Com: "CHF"}), jr.T(d2, "a", jr.B(food, bank, "5", "CHF")), jr.T(d2, "b", jr.B(food, food, "1", "CHF"))},
 	}
+	// a deep account and one of its ancestors, both booked: which of the two the account
+	// registry sees first is decided by the order of the directives (reports mapped with a suffix rule)
+	deep, opening := "Assets:Bank:Savings:Main", "Equity:Opening"
+	journals = append(journals, []jr.Dir{jr.O(d1, deep), jr.O(d1, bank), jr.O(d1, opening), jr.T(d1, "a", jr.B(opening, deep, "100", "CHF")), jr.T(d2, "b", jr.B(opening, bank, "50", "CHF"))})
 	for ji, ds := range journals {
 		var base *c05Obs
 		for pi, perm := range permutationsOf(len(ds)) {
